@@ -20,7 +20,9 @@ def probes(ctx):
                        "replay_payload": {"error": (so + se)[-2000:]}}]
     d = json.load(open(out))
     v = []
-    if d["recursion_400"] not in ("ok", "ParseError"):
+    # "x"*400 IS a sentence of r: the only acceptable outcomes are success and (the known finding) RecursionError; a ParseError or
+    # GrammarError here is a wrong answer, e.g. a stack overflow turned into "no match"
+    if d["recursion_400"] != "ok":
         v.append({"what": f"r = \"x\" r / \"x\" on 400 x raises {d['recursion_400']} (default recursion limit {d['recursion_limit']})",
                   "identity": "recursion-limit:right-recursive-rule:" + d["recursion_400"],
                   "replay_payload": {"property": "C12", "grammar": 'r = "x" r / "x"', "input": "x*400", "observed": d["recursion_400"]}})
@@ -34,6 +36,10 @@ def probes(ctx):
                           f"({cs}): no polynomial work bound",
                   "identity": "exponential-work:unmemoised-rule-alternatives",
                   "replay_payload": {"property": "C12", "grammar": 'd = "a" d / "a" d / "a"', "inputs": d["work_ns"], "calls": cs}})
+    for u in d.get("deep_nesting", []):
+        v.append({"what": f"{u['rule']} on a sentence nested {u['depth']} deep ({u['length']} characters) gives {u['outcome']}: a sentence of the grammar "
+                          "is accepted (or, past the interpreter's stack, RecursionError: the known finding) but never ParseError / GrammarError",
+                  "identity": f"deep-nesting:{u['rule']}:{u['outcome']}", "replay_payload": dict(u, property="C12")})
     for u in (d.get("long_sources") or {}).get("unexpected", []):
         v.append({"what": f"{u['call']} of rule {u['rule']} on a source of {u['length']} characters ({u['content']}) raised {u['raised']} "
                           "(only ParseError / GrammarError are documented)",
